@@ -247,6 +247,37 @@ func gStr(s string) string {
 	return gallina.Str(s)
 }
 
+// interner: every distinct label set / sample list / chunk list / series list of a shard is
+// defined once before `cases` and referred to by name (the same lists occur up to five times
+// per case; Coq's parser is the bottleneck of the evaluation).
+type interner struct {
+	defs strings.Builder
+	tab  map[string]string
+	n    int
+}
+
+var intern = &interner{tab: map[string]string{}}
+
+func (in *interner) get(typ, term string) string {
+	if len(term) < 24 {
+		return term
+	}
+	k := typ + "|" + term
+	if id, ok := in.tab[k]; ok {
+		return id
+	}
+	id := fmt.Sprintf("D%d", in.n)
+	in.n++
+	fmt.Fprintf(&in.defs, "Definition %s : %s := %s.\n", id, typ, term)
+	in.tab[k] = id
+	return id
+}
+
+func (in *interner) reset() {
+	in.defs.Reset()
+	in.tab = map[string]string{}
+}
+
 func gLabels(l [][2]string) string {
 	it := make([]string, len(l))
 	for i, p := range l {
@@ -255,7 +286,7 @@ func gLabels(l [][2]string) string {
 	if len(it) == 0 {
 		return "([] : labels)"
 	}
-	return gallina.List(it)
+	return intern.get("labels", gallina.List(it))
 }
 
 func gSamples(l []smp) string {
@@ -263,7 +294,7 @@ func gSamples(l []smp) string {
 	for i, s := range l {
 		it[i] = fmt.Sprintf("mkS %s %s %s", gallina.Z(s.T), [...]string{"KF", "KH", "KFH"}[s.K], gallina.ZU(s.V))
 	}
-	return gallina.List(it)
+	return intern.get("list sample", gallina.List(it))
 }
 
 func gSeries(l []ser) string {
@@ -271,7 +302,7 @@ func gSeries(l []ser) string {
 	for i, s := range l {
 		it[i] = fmt.Sprintf("mkSer %s %s", gLabels(s.L), gSamples(s.S))
 	}
-	return gallina.List(it)
+	return intern.get("list series", gallina.List(it))
 }
 
 func gChunks(l []chk) string {
@@ -279,7 +310,7 @@ func gChunks(l []chk) string {
 	for i, c := range l {
 		it[i] = fmt.Sprintf("mkC %s %s %d %d %s", gallina.Z(c.Min), gallina.Z(c.Max), c.Enc, c.Len, gSamples(c.S))
 	}
-	return gallina.List(it)
+	return intern.get("list chunk", gallina.List(it))
 }
 
 func gCSeries(l []cser) string {
@@ -631,9 +662,10 @@ func main() {
 	f := gallina.ParseFlags()
 	meta := gallina.NewMeta("C42", f.Seed, f.Tier)
 	meta.Rule = "generated tsdb.DB storages (1-5 series; float / int histogram / float histogram / mixed / special float values; 3..120 samples per chunk; optionally block+head, out-of-order samples, a tombstone) x generated queries (matchers eq/neq/re/nre, ranges whose ends are stored timestamps +-1, point, full and empty ranges, frame sizes from 1 byte to 1 MiB, sample limits around the result size, external labels, sortSeries); non-trivial = the direct query returns at least one sample; distinct by (storage index, mint, maxt, matchers, frame size, limit, external labels, sort)"
-	cf := &gallina.CaseFile{Dir: f.Out, Type: "case", PerShard: 150,
+	cf := &gallina.CaseFile{Dir: f.Out, Type: "case", PerShard: 0,
 		Preamble: "From Coq Require Import List ZArith NArith.\nFrom Verif Require Import lib.Int64 model.RemoteRead corr.CorrC42.\nImport ListNotations.\nOpen Scope Z_scope.\n" + dictPreamble(),
 		Footer:   gallina.StdFooter}
+	basePreamble = cf.Preamble
 	rg := newRig()
 	defer rg.srv.Close()
 	id0 := 0
@@ -660,7 +692,7 @@ func main() {
 		st.db.Close()
 		os.RemoveAll(dir)
 	}
-	cf.Flush()
+	flushShard(cf)
 	meta.Write(f.Out)
 }
 
@@ -971,6 +1003,9 @@ func runCase(f gallina.Flags, meta *gallina.Meta, cf *gallina.CaseFile, rg *rig,
 			limit = 0
 		}
 	}
+	if preset == nil && hasNegZero(direct) {
+		maxBytes = 1 << 20 // keep the two known shapes (split series, -0.0) in separate cases
+	}
 	corpus := ""
 	if preset != nil {
 		limit, corpus = preset.limit, preset.name
@@ -1092,4 +1127,18 @@ func runCase(f gallina.Flags, meta *gallina.Meta, cf *gallina.CaseFile, rg *rig,
 		Sort: sortSeries, Ext: ext.String(), Series: len(direct), Samples: total, Frames: len(frames), Sampled: so, Chunked: co, Shape: shape, Corpus: corpus, Untrim: untrimmed})
 	meta.Evaluations++
 	*id++
+	if *id%perShard == 0 {
+		flushShard(cf)
+	}
+}
+
+const perShard = 120
+
+var basePreamble string
+
+// flushShard writes the cases collected so far, preceded by the definitions they refer to.
+func flushShard(cf *gallina.CaseFile) {
+	cf.Preamble = basePreamble + intern.defs.String()
+	cf.Flush()
+	intern.reset()
 }
